@@ -221,3 +221,11 @@ Record ecase := {
 Definition ok_e2e (k : ecase) : bool :=
   let want := map ob_nd (select (e_cfg k) (e_forest k)) in
   list_eqb nd_eqb want (e_opt k) && list_eqb nd_eqb want (e_rec k).
+
+(* ---------------------------------------------------------------- trace_on / trace_off against the documented switch *)
+Definition fheightZ (f : list call) : Z := Z.of_nat (fold_right Nat.max 0%nat (map height f)).
+Definition ok_switch (k : case) : bool :=
+  let c := k_cfg k in
+  negb (no_range c && sw_class c (fns k) (fheightZ (k_forest k)))
+  || (list_eqb n_eqb (select_sw c (k_forest k)) (map nt_n (o_chrome k))
+      && (negb (plt_free c (fns k)) || list_eqb n_eqb (select_sw c (k_forest k)) (map nd_n (o_replay k)))).
